@@ -155,3 +155,56 @@ func VerifPoolLifecycle() {
 	zzverif.Assert(zzverif.ThreadsAliveIs(0), "watcher_goroutine_ended")
 	zzverif.Cover("pool_lifecycle_done")
 }
+
+// Cancel on a pool that has already ended by itself (every member ended, the watcher has cancelled the pool's
+// context), and Cancel twice - also from two goroutines at once: never a panic, Size reports zero after Cancel, the
+// pool stays done and a context offered afterwards is ignored.
+//
+//verif:harness prop=C20 name=pool_cancel_after_end threads=4 sched=delay preempt=2 t_preempt=3 unwind=12 witness=lenient
+func VerifPoolCancelAfterEnd() {
+	n := 1 + zzverif.Choose("members", 2)
+	var ms []*vMember
+	var ctxs []context.Context
+	for i := 0; i < n; i++ {
+		m := vNewMember(false)
+		ms = append(ms, m)
+		ctxs = append(ctxs, m.ctx)
+	}
+	p := NewPool(ctxs...)
+	endedByItself := zzverif.Bool("pool_ended_by_itself_first")
+	if endedByItself {
+		for _, m := range ms {
+			m.cancel()
+		}
+		zzverif.WaitQuiescent()
+		zzverif.Assert(p.Err() != nil, "pool_done_once_all_members_done")
+	}
+	if zzverif.Bool("two_concurrent_cancels") {
+		done := make(chan struct{}, 2)
+		for i := 0; i < 2; i++ {
+			go func() {
+				zzverif.MustFinish()
+				p.Cancel()
+				done <- struct{}{}
+			}()
+		}
+		<-done
+		<-done
+	} else {
+		p.Cancel()
+		p.Cancel()
+	}
+	zzverif.Assert(p.Size() == 0, "size_zero_after_cancel")
+	zzverif.WaitQuiescent()
+	zzverif.Assert(p.Err() != nil, "pool_done_after_cancel")
+	late := vNewMember(false)
+	p.Add(late.ctx)
+	zzverif.Assert(p.Size() == 0, "context_offered_after_the_end_is_ignored")
+	for _, m := range ms {
+		m.cancel()
+	}
+	late.cancel()
+	zzverif.WaitQuiescent()
+	zzverif.Assert(zzverif.ThreadsAliveIs(0), "watcher_goroutine_ended")
+	zzverif.Cover("pool_cancel_after_end_done")
+}
